@@ -529,3 +529,677 @@ Example y_destroyed :
   calls_of (snd (step y_cfg2 s1 (EioClose y_e1 (PStr (s2l "transport close"))))) =
     [(2, [PStr (sid_name 0); PStr (s2l "transport close")])].
 Proof. vm_compute. repeat split. Qed.
+(* ==================================================================================== *)
+(** * C12 with scripted actions: what a handler invoked for a client of transport e can do *)
+
+Lemma hp_and {A} s (m : SM A) (Q1 Q2 : Post A) :
+  hp s m Q1 -> hp s m Q2 -> hp s m (fun r s' es => Q1 r s' es /\ Q2 r s' es).
+Proof. unfold hp. destruct (m s) as [[s' es] r]. auto. Qed.
+
+(* effects: as Eok, but a scripted emit may address anybody *)
+Definition Eok' (s : srv) (e : str) (x : eff) : Prop :=
+  match x with Out _ _ => True | y => Eok s e y end.
+Definition quiet_eff (x : eff) : Prop := match x with Call _ _ | CbCall _ _ => False | _ => True end.
+Lemma quiet_Eok' s e x : quiet_eff x -> Eok' s e x.
+Proof. destruct x; cbn; auto; contradiction. Qed.
+
+(* ---- manager level ---- *)
+Lemma v_cbs_nroom lv fr m m' e :
+  MInv lv fr m -> MInv lv fr m' -> callbacks m' = callbacks m -> (forall n, nroom m' n = nroom m n) ->
+  v_cbs e m' = v_cbs e m.
+Proof.
+  intros H H' Hc Hn. apply v_cbs_ext; [exact Hc|]. intros k _.
+  rewrite (sids_of_eio_iff _ _ _ _ _ H'), (sids_of_eio_iff _ _ _ _ _ H).
+  split; intros (n & Hk); exists n; rewrite <- Hk; [symmetry|]; apply sid_from_eio_nroom; auto.
+Qed.
+
+Lemma eio_from_sid_rmem lv fr m sid ns e :
+  MInv lv fr m -> eio_from_sid m sid ns = Some e ->
+  exists rm, ns_rooms m ns = Some rm /\ rmem rm PNone sid e /\ sid_on e sid rm.
+Proof.
+  intros H He. unfold eio_from_sid, room_of in He. destruct (ns_rooms m ns) as [rm|] eqn:Hr; [|discriminate].
+  destruct (mi_ns _ _ _ H _ _ Hr) as [_ Hi]. exists rm. split; [reflexivity|].
+  assert (Hm : rmem rm PNone sid e).
+  { apply (rmem_none_iff _ _ _ (ri_wf _ _ _ Hi)). destruct (aget room_eqb rm PNone) as [b|]; [|discriminate]. eauto. }
+  split; [exact Hm|]. intros r x Hmx. apply (ri_sub _ _ _ Hi) in Hmx.
+  apply (rmem_none_iff _ _ _ (ri_wf _ _ _ Hi)) in Hmx as (b1 & Hb1 & Hx).
+  apply (rmem_none_iff _ _ _ (ri_wf _ _ _ Hi)) in Hm as (b2 & Hb2 & He2). congruence.
+Qed.
+
+Lemma leave_room_views lv fr m sid ns room e :
+  MInv lv fr m -> room <> PNone -> eio_from_sid m sid ns = Some e ->
+  let m' := leave_room m sid ns room in
+  v_rooms e m' = v_rooms e m /\ v_sids e m' = v_sids e m /\ v_cbs e m' = v_cbs e m.
+Proof.
+  intros H Hne He m'.
+  assert (Hcbs : v_cbs e m' = v_cbs e m).
+  { apply (v_cbs_nroom lv fr); auto.
+    - apply MInv_leave_room; auto.
+    - apply leave_room_callbacks.
+    - intros n. apply leave_room_nroom; auto. apply (mi_keys _ _ _ H). }
+  split; [|split; [|exact Hcbs]]; unfold m'; rewrite leave_room_eq.
+  all: destruct (eio_from_sid_rmem _ _ _ _ _ _ H He) as (rm & Hr & Hm & Hon); rewrite Hr.
+  all: destruct (mi_ns _ _ _ H _ _ Hr) as [_ Hi].
+  all: destruct (rm_leave rm sid room) as [rm'|] eqn:Hl; [|reflexivity].
+  all: assert (V := views_ns_put e m ns rm'); rewrite Hr in V.
+  all: assert (V1 : g_rooms e (ns, rm') = g_rooms e (ns, rm))
+         by (eapply g_rooms_leave; eauto; apply sid_on_premise; auto; apply (ri_wf _ _ _ Hi)).
+  all: assert (V2 : none_view e rm' = none_view e rm)
+         by (eapply none_view_leave; eauto; [apply (ri_wf _ _ _ Hi)|apply sid_on_premise; auto; apply (ri_wf _ _ _ Hi)]).
+  all: destruct (V (conj V1 V2)); auto.
+Qed.
+
+Lemma enter_room_views lv fr m sid ns room e :
+  MInv lv fr m -> room_ok room -> eio_from_sid m sid ns = Some e ->
+  let m' := fst (enter_room m sid ns room) in
+  v_rooms e m' = v_rooms e m /\ v_sids e m' = v_sids e m /\ v_cbs e m' = v_cbs e m.
+Proof.
+  intros H Hok He m'.
+  destruct (enter_room_spec _ _ _ sid ns room H Hok) as (A & B & C & D). fold m' in A, B, C, D.
+  assert (Hcbs : v_cbs e m' = v_cbs e m) by (apply (v_cbs_nroom lv fr); auto).
+  split; [|split; [|exact Hcbs]]; unfold m', enter_room.
+  all: destruct (eio_from_sid_rmem _ _ _ _ _ _ H He) as (rm & Hr & Hm & Hon); rewrite Hr.
+  all: destruct (mi_ns _ _ _ H _ _ Hr) as [_ Hi].
+  all: assert (Hlook : match aget room_eqb rm PNone with Some b0 => bd_get b0 sid | None => None end = Some e)
+         by (apply (rmem_none_iff _ _ _ (ri_wf _ _ _ Hi)) in Hm as (b0 & -> & Hb0); exact Hb0).
+  all: rewrite Hlook.
+  all: set (b := match aget room_eqb rm room with Some b => b | None => [] end).
+  all: assert (Hb : aget room_eqb rm room = Some b \/ (aget room_eqb rm room = None /\ b = []))
+         by (unfold b; destruct (aget room_eqb rm room); auto).
+  all: unfold bd_put; destruct (bd_inv b e) as [s'|] eqn:Hinv.
+  all: try (assert (Hb' : aget room_eqb rm room = Some b)
+              by (destruct Hb as [Hb|[_ Hb]]; [auto|rewrite Hb in Hinv; discriminate]);
+            assert (s' = sid)
+              by (apply bd_inv_In in Hinv; apply aget_In in Hb' as (k' & Hin & _);
+                  assert (Hm' : rmem rm k' s' e) by (exists b; auto);
+                  apply (ri_sub _ _ _ Hi) in Hm'; eapply ri_inj; eauto);
+            subst s'; rewrite str_eqb_refl; cbn [fst];
+            rewrite (aset_same _ _ _ _ Hb'); unfold ns_rooms in Hr; rewrite (aset_same _ _ _ _ Hr), set_rooms_same;
+            reflexivity).
+  all: cbn [fst]; rewrite ns_put_as_set by apply aset_nonnil.
+  all: assert (Hs : bd_get b sid = None)
+         by (destruct (bd_get b sid) as [x|] eqn:Hx; [|reflexivity]; exfalso;
+             destruct Hb as [Hb|[_ Hb]]; [|rewrite Hb in Hx; discriminate];
+             apply aget_In in Hb as (k' & Hin & _); apply (xaget_In _ str_eqb_eq) in Hx;
+             assert (x = e) by (apply (Hon k'); exists b; auto); subst x;
+             eapply bd_inv_None; eauto).
+  all: destruct (views_put e ns rm room b sid Hb Hs) as [V1 V2].
+  all: assert (V := views_ns_put e m ns (aset room_eqb rm room (aset str_eqb b sid e))); rewrite Hr in V.
+  all: destruct (V (conj V1 V2)); auto.
+Qed.
+(* ---- server level: one scripted action of a handler running for (ns, sid) on transport e ---- *)
+Lemma osame_put_sess e s n v : osame e s (put_sess s e n v).
+Proof.
+  split; try reflexivity. unfold put_sess, with_sessions. cbn [sessions].
+  destruct (aget str_eqb (sessions s) e) as [d|] eqn:Hd.
+  - apply (filter_aset str_eqb _ _ _ _ d Hd). intros k' Hk. apply str_eqb_eq in Hk. subst. cbn [fst]. rewrite other_self. auto.
+  - apply filter_aset_new; [exact Hd|]. cbn [fst]. apply other_self.
+Qed.
+
+Lemma forall_quiet_nil : Forall quiet_eff [].
+Proof. constructor. Qed.
+
+Lemma run_action_osame c (ns sid : str) a e s :
+  action_ok a -> ns <> [] -> Mid s -> eio_from_sid (mg s) sid ns = Some e ->
+  hp s (run_action c ns sid a) (fun _ s' es => osame e s s' /\ Forall quiet_eff es).
+Proof.
+  intros Hok Hns HM He. assert (Hnd : ns_or_default (Some ns) = ns) by (destruct ns; [contradiction|reflexivity]).
+  destruct a as [room|room|ev data|ev data room sk|v|]; cbn [run_action action_ok] in *.
+  - apply hp_bind. apply hp_with_mg.
+    destruct (enter_room_views _ _ _ sid ns room e (mid_mg _ HM) Hok He) as (A & B & C).
+    assert (G : osame e s (upd_mg s (fst (enter_room (mg s) sid ns room))) /\ Forall quiet_eff []).
+    { split; [apply osame_mg; auto|constructor]. }
+    destruct (snd (enter_room (mg s) sid ns room)); apply hp_lift; exact G.
+  - apply hp_set_mg. destruct (leave_room_views _ _ _ sid ns room e (mid_mg _ HM) Hok He) as (A & B & C).
+    split; [apply osame_mg; auto|constructor].
+  - unfold api_emit. eapply hp_conseq.
+    + apply (mgr_emit_nocb_pres (fun s' => s' = s) quiet_eff); [intros; exact I|reflexivity].
+    + intros r s' es [-> F]. split; [apply osame_refl|auto].
+  - unfold api_emit. eapply hp_conseq.
+    + apply (mgr_emit_nocb_pres (fun s' => s' = s) quiet_eff); [intros; exact I|reflexivity].
+    + intros r s' es [-> F]. split; [apply osame_refl|auto].
+  - unfold hp. destruct (in_dec (list_eq_dec N.eq_dec) e (live s)) as [Hl|Hnl].
+    + pose proof (api_save_session_run sid v (Some ns) s e) as R. rewrite Hnd in R. rewrite (R He Hl).
+      split; [apply osame_put_sess|constructor].
+    + unfold api_save_session, bindM, getS, lift, eio_session. rewrite Hnd, He.
+      destruct (existsb (str_eqb e) (live s)) eqn:Ex; [|split; [apply osame_refl|constructor]]. exfalso. apply Hnl.
+      apply existsb_exists in Ex as (x & Hx & Hex). apply str_eqb_eq in Hex. subst. auto.
+  - apply hp_bind. unfold hp. destruct (in_dec (list_eq_dec N.eq_dec) e (live s)) as [Hl|Hnl].
+    + pose proof (api_get_session_run sid (Some ns) s e) as R. rewrite Hnd in R. rewrite (R He Hl).
+      unfold tell. split; [|repeat constructor].
+      destruct (sess_at s e ns); [apply osame_refl|apply osame_put_sess].
+    + rewrite api_get_session_dead by (rewrite Hnd, He; exact Hnl). split; [apply osame_refl|constructor].
+Qed.
+
+(* the handler machinery for a fixed (ns, sid) *)
+Section HandlersAt.
+  Variable c : cfg.
+  Variable J : srv -> Prop.
+  Variable E : eff -> Prop.
+  Variable CallOk : list pv -> Prop.
+  Variables (ns sid : str).
+  Hypothesis Hcall : forall h a, CallOk a -> E (Call h a).
+  Hypothesis Hact : forall hid b a,
+      aget N.eqb (behav c) hid = Some b -> In a (h_actions b) -> pres J E (run_action c ns sid a).
+
+  Lemma call_handler_at hid args : CallOk args -> pres J E (call_handler c hid ns sid args).
+  Proof.
+    intros Hok. unfold call_handler. destruct (aget N.eqb (behav c) hid) as [b|] eqn:Hb; [|apply pres_raise].
+    destruct (match h_arity b with Some n => negb (Nat.eqb n (List.length args)) | None => false end);
+      [apply pres_raise|].
+    apply pres_bind; [apply pres_tell; auto|]. intros _.
+    apply pres_bind.
+    - apply pres_forM. intros a Ha. eapply Hact; eauto.
+    - intros _. destruct (h_outcome b); [apply pres_ret|apply pres_raise|apply pres_raise].
+  Qed.
+
+  Lemma call_with_retry_at ev hid args :
+    CallOk args -> (is_disconnect ev = true -> CallOk (removelast args)) ->
+    pres J E (call_with_retry c ev hid ns sid args).
+  Proof.
+    intros H1 H2. unfold call_with_retry. apply pres_catch; [apply call_handler_at; auto|].
+    intros x k Hx. destruct x; try discriminate. destruct (is_disconnect ev); [|discriminate].
+    injection Hx as <-. apply call_handler_at; auto.
+  Qed.
+
+  Lemma trigger_event_at ev args :
+    arg_sid args = sid ->
+    (forall a, derived ev ns args a -> CallOk a /\ (is_disconnect ev = true -> CallOk (removelast a))) ->
+    pres J E (trigger_event c ev ns args).
+  Proof.
+    intros Hsid Hd. unfold trigger_event. rewrite Hsid. destruct (is_unhashable ev && _); [apply pres_raise|].
+    destruct (get_event_handler c ev ns args) as [[h args']|] eqn:Hg.
+    - apply get_event_handler_derived in Hg. destruct (Hd _ Hg).
+      apply pres_bind; [apply call_with_retry_at; auto|]. intros v. apply pres_ret.
+    - destruct (get_namespace_handler c ns args) as [[methods args']|] eqn:Hn; [|apply pres_ret].
+      apply (get_namespace_handler_derived c ev) in Hn. destruct (Hd _ Hn).
+      destruct ev; try (destruct (truthy _); [apply pres_raise|apply pres_ret]).
+      destruct (aget str_eqb methods s) as [h|]; [|apply pres_ret].
+      apply pres_bind; [apply call_with_retry_at; auto|]. intros v. apply pres_ret.
+  Qed.
+End HandlersAt.
+
+(* a handler invoked for sid (living on e in ns): invariant, frame, and the others' view *)
+Definition JA (e : str) (s1 s' : srv) : Prop := Mid s' /\ hframe s1 s' /\ osame e s1 s'.
+
+Lemma JA_refl e s1 : Mid s1 -> JA e s1 s1.
+Proof. intros H. split; [auto|split; [apply hframe_refl|apply osame_refl]]. Qed.
+
+Lemma eio_from_sid_nroom m m' sid ns : nroom m' ns = nroom m ns -> eio_from_sid m' sid ns = eio_from_sid m sid ns.
+Proof. unfold eio_from_sid, nroom. intros ->. reflexivity. Qed.
+
+Lemma trigger_event_act c s e ev (ns : str) args (sid : str) s1 :
+  cfg_ok c -> ns <> [] -> Mid s1 -> eio_from_sid (mg s1) sid ns = Some e -> In sid (mine0 s e) ->
+  arg_sid args = sid ->
+  (forall a, derived ev ns args a -> In (PStr sid) a /\ (is_disconnect ev = true -> In (PStr sid) (removelast a))) ->
+  hp s1 (trigger_event c ev ns args) (fun _ s' es => JA e s1 s' /\ Forall (Eok' s e) es).
+Proof.
+  intros Hc Hns HM He Hmine Hsid Hd.
+  refine (trigger_event_at c (JA e s1) (Eok' s e) (fun a => In (PStr sid) a) ns sid _ _ ev args Hsid Hd s1 (JA_refl e s1 HM)).
+  - intros h a Ha. exists sid. auto.
+  - intros hid b a Hb Ha s' (M' & F' & O').
+    assert (Hok : action_ok a).
+    { apply aget_In in Hb as (hid' & Hin & Heq). apply N.eqb_eq in Heq. subst. eapply Hc; eauto. }
+    assert (He' : eio_from_sid (mg s') sid ns = Some e).
+    { rewrite <- He. apply eio_from_sid_nroom. apply (hf_nroom _ _ F'). }
+    eapply hp_conseq; [apply hp_and; [apply (run_action_frame c ns sid a s' Hok M')|apply (run_action_osame c ns sid a e s' Hok Hns M' He')]|].
+    intros r s'' es [[M'' F''] [O'' Q]]. split.
+    + split; [auto|split; [eapply hframe_trans; eauto|eapply osame_trans; eauto]].
+    + eapply Forall_impl; [|exact Q]. intros x. apply quiet_Eok'.
+Qed.
+Lemma Eok_Eok' s e x : Eok s e x -> Eok' s e x.
+Proof. destruct x; cbn; auto. Qed.
+Lemma ns_or_default_nonnil pns : ns_or_default pns <> [].
+Proof. unfold ns_or_default. destruct pns as [[|ch r]|]; discriminate. Qed.
+
+Section Act.
+  Variable c : cfg.
+  Hypothesis Hc : cfg_ok c.
+  Variable s : srv.
+  Variable e : str.
+  Let E := Eok' s e.
+
+  Lemma send_act (J : srv -> Prop) eio t data ns id : pres J E (send_packet c eio t data ns id).
+  Proof. apply send_packet_pres. intros; exact I. Qed.
+
+  Lemma send_act_quiet s1 eio t data ns id :
+    hp s1 (send_packet c eio t data ns id) (fun _ s' es => s' = s1 /\ Forall E es).
+  Proof. apply (send_act (fun s' => s' = s1)). reflexivity. Qed.
+
+  Lemma sid_on_e s1 ns sid :
+    Mid s1 -> sid_from_eio (mg s1) e ns = Some sid -> eio_from_sid (mg s1) sid ns = Some e.
+  Proof.
+    intros HM Hs. destruct (sid_from_eio_some _ _ _ _ _ _ (mid_mg _ HM) Hs) as (b & rm & Hn & _ & Hg & _).
+    unfold eio_from_sid. fold (nroom (mg s1) ns). rewrite Hn. exact Hg.
+  Qed.
+
+  Lemma handle_event_act pns id data s1 :
+    Mid s1 -> mg s1 = mg s -> ev_not_disconnect data ->
+    hp s1 (handle_event c e pns id data) (fun _ s' es => osame e s1 s' /\ Forall E es).
+  Proof.
+    intros HM Hmg Hev. unfold handle_event. set (ns := ns_or_default pns). apply hp_getS_bind.
+    apply (hp_bind_E _ _ _ E (fun r s' => s' = s1 /\ r = split_event data) (fun s' => osame e s1 s'));
+      [apply hp_lift; auto| |intros x s' [-> _]; apply osame_refl].
+    intros [ev rest] s1' [-> Hsp]. cbn [fst snd].
+    assert (Hevd : is_disconnect ev = false) by (eapply Hev; eauto).
+    destruct (negb _); [apply hp_ret; split; [apply osame_refl|constructor]|].
+    destruct (sid_from_eio (mg s1) e ns) as [sid|] eqn:Hsid; [|apply hp_ret; split; [apply osame_refl|constructor]].
+    assert (Hmine : In sid (mine0 s e)).
+    { right. rewrite <- Hmg. eapply sid_from_eio_In; eauto. }
+    apply (hp_bind_E _ _ _ E (fun _ s' => JA e s1 s') (fun s' => osame e s1 s')).
+    - apply (trigger_event_act c s e ev ns _ sid s1); auto.
+      + apply ns_or_default_nonnil.
+      + apply sid_on_e; auto.
+      + intros a Hd. split; [|congruence].
+        destruct Hd as [-> |[-> |[-> | ->]]]; cbn [In]; auto.
+    - intros r s2 (M2 & F2 & O2). destruct r as [v|]; [|apply hp_ret; split; [auto|constructor]].
+      destruct id as [i|]; [|apply hp_ret; split; [auto|constructor]].
+      eapply hp_conseq; [apply send_act_quiet|]. intros ? s' es [-> F]. auto.
+    - intros x s2 (M2 & F2 & O2). exact O2.
+  Qed.
+
+  Lemma handle_ack_act pns id data s1 :
+    mg s1 = mg s -> hp s1 (handle_ack c e pns id data) (fun _ s' es => osame e s1 s' /\ Forall E es).
+  Proof.
+    intros Hmg. eapply hp_conseq; [apply (handle_ack_local c s e pns id data s1 Hmg)|].
+    intros r s' es [O F]. split; [auto|]. eapply Forall_impl; [|exact F]. intros x. apply Eok_Eok'.
+  Qed.
+
+  Lemma disconnect_tail_act ns sid args s1 b :
+    ns <> [] -> arg_sid args = sid ->
+    Mid s1 -> pending (mg s1) = [(ns, [sid])] -> nroom (mg s1) ns = Some b -> In (sid, e) b ->
+    In sid (mine0 s e) ->
+    (forall a, derived (PStr (s2l "disconnect")) ns args a -> In (PStr sid) a /\ In (PStr sid) (removelast a)) ->
+    hp s1 (finallyM (_ <~ trigger_event c (PStr (s2l "disconnect")) ns args ;; ret tt)
+                    (set_mg (fun m => mgr_disconnect m sid ns)))
+       (fun _ s' es => osame e s1 s' /\ Forall E es).
+  Proof.
+    intros Hns Hsid HM Hp Hn Hin Hmine Hargs. apply hp_finally. apply hp_bind.
+    destruct (nroom_rmem _ _ _ _ _ _ _ (mid_mg _ HM) Hn Hin) as (rm & Hr & Hm).
+    assert (Hs1 : sid_from_eio (mg s1) e ns = Some sid) by (eapply rmem_sid_from_eio; eauto; apply (mid_mg _ HM)).
+    eapply hp_conseq.
+    { apply (trigger_event_act c s e _ ns args sid s1); auto.
+      - apply sid_on_e; auto.
+      - intros a Hd. destruct (Hargs a Hd). auto. }
+    intros r s2 e1 [(M2 & F2 & O2) F1].
+    assert (G : hp s2 (set_mg (fun m => mgr_disconnect m sid ns))
+                  (fun _ s3 e2 => osame e s1 s3 /\ Forall E (e1 ++ e2))).
+    { apply hp_set_mg. rewrite app_nil_r. split; [|auto].
+      assert (Hs2 : sid_from_eio (mg s2) e ns = Some sid).
+      { rewrite <- Hs1. apply sid_from_eio_nroom. apply (hf_nroom _ _ F2). }
+      destruct (mgr_disconnect_views _ _ _ _ _ _ (mid_mg _ M2) Hs2) as (A & B & C).
+      eapply osame_trans; [exact O2|]. apply osame_mg; auto. }
+    destruct r as [v|x]; [apply hp_ret|]; (eapply hp_conseq; [exact G|]); intros rf s3 e2 HH; rewrite ?app_nil_r; exact HH.
+  Qed.
+
+  Lemma handle_disconnect_act pns reason :
+    Inv s -> hp s (handle_disconnect c e pns reason) (fun _ s' es => osame e s s' /\ Forall E es).
+  Proof.
+    intros [HM Hp]. unfold handle_disconnect. set (ns := ns_or_default pns). apply hp_getS_bind.
+    destruct (sid_from_eio (mg s) e ns) as [sid|] eqn:Hsid.
+    2:{ cbn [is_connected negb]. apply hp_ret. split; [apply osame_refl|constructor]. }
+    destruct (sid_from_eio_some _ _ _ _ _ _ (mid_mg _ HM) Hsid) as (b & rm & Hn & Hin & Hg & Hr & Hm).
+    rewrite (is_connected_nopending _ _ _ _ _ Hp Hn Hg). cbn [negb].
+    apply hp_bind. apply hp_with_mg. rewrite (pre_disconnect_run _ _ _ _ Hp Hn). cbn [fst snd].
+    apply hp_bind. apply hp_lift. cbn beta iota.
+    set (s1 := upd_mg s (mkMgr (rooms (mg s)) [(ns, [sid])] (callbacks (mg s)))).
+    assert (HM1 : Mid s1).
+    { apply Mid_upd_mg; auto. apply (MInv_ext _ _ (mg s)); auto. apply (mid_mg _ HM). }
+    assert (Hos1 : osame e s s1) by (split; reflexivity).
+    eapply hp_conseq.
+    - apply (disconnect_tail_act ns sid _ s1 b); auto.
+      + apply ns_or_default_nonnil.
+      + right. eapply sid_from_eio_In; eauto.
+      + intros a Hd. destruct Hd as [-> |[-> |[-> | ->]]]; cbn [In removelast]; auto 6.
+    - intros r s' es [Hos F]. split; [eapply osame_trans; eauto|auto].
+  Qed.
+
+  Lemma handle_connect_act pns data :
+    Inv s -> In e (live s) ->
+    hp s (handle_connect c e pns data) (fun _ s' es => osame e s s' /\ Forall E es).
+  Proof.
+    intros HI Hlive. unfold handle_connect. set (ns := ns_or_default pns).
+    assert (Hns : ns <> []) by apply ns_or_default_nonnil.
+    apply hp_getS_bind. set (sid := sid_name (fresh s)).
+    assert (Hmine : In sid (mine0 s e)) by (left; reflexivity).
+    apply (hp_bind_E _ _ _ E
+             (fun r s1 => osame e s s1 /\ Inv s1 /\
+                (r = Ok None \/ (r = Ok (Some sid) /\ exists b, nroom (mg s1) ns = Some b /\ In (sid, e) b)))
+             (fun s' => osame e s s')).
+    { destruct (served c ns).
+      - apply hp_bind. apply hp_putS. apply hp_with_mg. cbn [mg environ binpkt sessions live fresh upd_mg].
+        destruct HI as [HM Hp].
+        destruct (mgr_connect_spec _ _ _ e ns (mid_mg _ HM) Hlive Hns) as (A & B & C & D & F & G & K).
+        destruct (mgr_connect_views _ _ _ e ns (mid_mg _ HM) Hlive Hns) as (V1 & V2 & V3).
+        fold sid in A, B, C, D, F, G, K, V1, V2, V3.
+        split; [|constructor]. split; [split; auto|]. split.
+        + split; [|cbn [mg upd_mg]; congruence]. destruct HM as [H1 H2 H3 H4]. split; auto.
+        + destruct G as [G|G]; rewrite G; [left; reflexivity|right]. split; [reflexivity|].
+          destruct (K G) as (rm' & Hr' & Hm' & _).
+          destruct (rmem_nroom _ _ _ _ _ _ _ A Hr' Hm') as (b & Hn & _ & Hin). exists b. auto.
+      - apply hp_ret. split; [|constructor]. split; [apply osame_refl|]. split; auto. }
+    2:{ intros x s1 (Hos & _). exact Hos. }
+    intros osid s1 (Hos1 & HI1 & Hcase).
+    destruct Hcase as [[= ->]|([= ->] & b & Hn1 & Hin1)].
+    { eapply hp_conseq; [apply send_act_quiet|]. intros r s' es [-> F]. auto. }
+    destruct HI1 as [M1 Hp1].
+    destruct (nroom_rmem _ _ _ _ _ _ _ (mid_mg _ M1) Hn1 Hin1) as (rm1 & Hr1 & Hm1).
+    assert (Hs1 : sid_from_eio (mg s1) e ns = Some sid) by (eapply rmem_sid_from_eio; eauto; apply (mid_mg _ M1)).
+    assert (He1 : eio_from_sid (mg s1) sid ns = Some e) by (apply sid_on_e; auto).
+    set (J := JA e s1).
+    assert (J1 : J s1) by (apply JA_refl; auto).
+    assert (Htrig : forall args, (exists rest, args = PStr sid :: rest) ->
+               pres J E (trigger_event c (PStr (s2l "connect")) ns args)).
+    { intros args [rest ->].
+      apply (trigger_event_at c J E (fun a => In (PStr sid) a) ns sid).
+      - intros h a Ha. exists sid. auto.
+      - intros hid b0 a Hb Ha s' (M' & F' & O').
+        assert (Hok : action_ok a).
+        { apply aget_In in Hb as (hid' & Hin & Heq). apply N.eqb_eq in Heq. subst. eapply Hc; eauto. }
+        assert (He' : eio_from_sid (mg s') sid ns = Some e).
+        { rewrite <- He1. apply eio_from_sid_nroom. apply (hf_nroom _ _ F'). }
+        eapply hp_conseq; [apply hp_and; [apply (run_action_frame c ns sid a s' Hok M')|apply (run_action_osame c ns sid a e s' Hok Hns M' He')]|].
+        intros r s'' es [[M'' F''] [O'' Q]]. split.
+        + split; [auto|split; [eapply hframe_trans; eauto|eapply osame_trans; eauto]].
+        + eapply Forall_impl; [|exact Q]. intros x. apply quiet_Eok'.
+      - reflexivity.
+      - intros a Hd. split; [|discriminate]. destruct Hd as [-> |[-> |[-> | ->]]]; cbn [In]; auto. }
+    assert (Jos : forall s', J s' -> osame e s s').
+    { intros s' (_ & _ & O'). eapply osame_trans; eauto. }
+    apply (hp_bind_E _ _ _ E (fun _ s' => J s') (fun s' => osame e s s')); [| |intros x s' HJ; auto].
+    { refine ((_ : pres J E _) s1 J1). destruct (always_connect c); [apply send_act|apply pres_ret]. }
+    intros _ s2 J2.
+    apply (hp_bind_E _ _ _ E (fun _ s' => J s') (fun s' => osame e s s')); [| |intros x s' HJ; auto].
+    { refine ((_ : pres J E _) s2 J2). destruct (aget str_eqb (environ s) e); [apply pres_ret|apply pres_raise]. }
+    intros env s3 J3.
+    apply (hp_bind_E _ _ _ E (fun _ s' => J s') (fun s' => osame e s s')); [| |intros x s' HJ; auto].
+    { refine ((_ : pres J E _) s3 J3).
+      apply pres_catch.
+      - apply pres_bind; [|intros r; apply pres_ret].
+        destruct (truthy data); [apply Htrig; eauto|].
+        apply pres_catch; [apply Htrig; eauto|].
+        intros x k Hx. destruct x; try discriminate. injection Hx as <-. apply Htrig. eauto.
+      - intros x k Hx. destruct x; try discriminate. injection Hx as <-. apply pres_ret. }
+    intros [success fail_reason] s4 J4.
+    destruct (match success with Some v => pv_eqb v (PBool false) | None => false end).
+    2:{ destruct (always_connect c); [apply hp_ret; split; [auto|constructor]|].
+        eapply hp_conseq; [apply send_act_quiet|]. intros r s' es [-> F]. auto. }
+    (* refusal *)
+    destruct J4 as (M4 & F4 & O4).
+    assert (Hn4 : nroom (mg s4) ns = Some b) by (rewrite (hf_nroom _ _ F4); auto).
+    assert (Hp4 : pending (mg s4) = []) by (rewrite (hf_pending _ _ F4); auto).
+    assert (Hs4 : sid_from_eio (mg s4) e ns = Some sid).
+    { rewrite <- Hs1. apply sid_from_eio_nroom. apply (hf_nroom _ _ F4). }
+    assert (Hos4 : osame e s s4) by (eapply osame_trans; eauto).
+    apply hp_finally. destruct (always_connect c).
+    - apply hp_bind. apply hp_with_mg. rewrite (pre_disconnect_run _ _ _ _ Hp4 Hn4). cbn [fst snd].
+      set (s5 := upd_mg s4 (mkMgr (rooms (mg s4)) [(ns, [sid])] (callbacks (mg s4)))).
+      assert (M5 : MInv (live s5) (fresh s5) (mg s5)).
+      { apply (MInv_ext _ _ (mg s4)); auto. apply (mid_mg _ M4). }
+      apply hp_bind. apply hp_lift. cbn beta iota.
+      eapply hp_conseq; [apply send_act_quiet|]. intros r5 s5' e5 [-> F5]. apply hp_set_mg.
+      rewrite app_nil_r. split; [|auto].
+      assert (Hs5 : sid_from_eio (mg s5) e ns = Some sid) by exact Hs4.
+      destruct (mgr_disconnect_views _ _ _ _ _ _ M5 Hs5) as (A & B & C).
+      eapply osame_trans; [exact Hos4|]. split; auto.
+    - eapply hp_conseq; [apply send_act_quiet|]. intros r5 s5' e5 [-> F5]. apply hp_set_mg.
+      rewrite app_nil_r. split; [|auto].
+      destruct (mgr_disconnect_views _ _ _ _ _ _ (mid_mg _ M4) Hs4) as (A & B & C).
+      eapply osame_trans; [exact Hos4|]. apply osame_mg; auto.
+  Qed.
+End Act.
+Lemma handle_eio_message_act c s e loads payload :
+  cfg_ok c -> Inv s -> In e (live s) -> benign_event_name c s e payload loads ->
+  hp s (handle_eio_message c loads e payload) (fun _ s' es => osame e s s' /\ Forall (Eok' s e) es).
+Proof.
+  intros Hc HI Hlive Hben. unfold handle_eio_message. apply hp_getS_bind. unfold benign_event_name in Hben.
+  assert (HM := proj1 HI).
+  destruct (aget str_eqb (binpkt s) e) as [r|] eqn:Hbp.
+  - assert (Hself : forall k' (r0 : rpacket), str_eqb k' e = true -> other e (fst (k', r0)) = false).
+    { intros k' r0 Hk. apply str_eqb_eq in Hk. subst. apply other_self. }
+    destruct (add_attachment r payload) as [[r' [|]]|x] eqn:Hadd.
+    + apply hp_bind. unfold set_binpkt. apply hp_modify.
+      set (s1 := mkSrv (mg s) (environ s) (adel str_eqb (binpkt s) e) (sessions s) (live s) (fresh s)).
+      assert (Hos1 : osame e s s1).
+      { apply osame_binpkt. apply (filter_adel str_eqb _ _ _ r Hbp). intros k' Hk. apply Hself; auto. }
+      assert (HM1 : Mid s1) by (apply (Inv_binpkt_adel s e HI)).
+      destruct (type_is (rp r') BINARY_EVENT).
+      * eapply hp_conseq; [apply (handle_event_act c Hc s e _ _ _ s1); [exact HM1|reflexivity|apply Hben; reflexivity]|].
+        intros ? s' es [Hos F]. split; [eapply osame_trans; eauto|auto].
+      * eapply hp_conseq; [apply (handle_ack_act c s e _ _ _ s1); reflexivity|].
+        intros ? s' es [Hos F]. split; [eapply osame_trans; eauto|auto].
+    + unfold set_binpkt. apply hp_modify. split; [|constructor]. apply osame_binpkt.
+      apply (filter_aset str_eqb _ _ _ _ r Hbp). intros k' Hk. split; apply Hself; auto.
+    + apply hp_bind. destruct (N.leb _ _).
+      * apply hp_ret. apply hp_raise. split; [apply osame_refl|constructor].
+      * unfold set_binpkt. apply hp_modify. apply hp_raise. split; [|constructor]. apply osame_binpkt.
+        apply (filter_aset str_eqb _ _ _ _ r Hbp). intros k' Hk. split; apply Hself; auto.
+  - apply hp_bind. apply hp_lift.
+    destruct (decode_any c loads payload) as [r|x] eqn:Hdec; [|split; [apply osame_refl|constructor]].
+    destruct (type_is (rp r) CONNECT); [apply handle_connect_act; auto|].
+    destruct (type_is (rp r) DISCONNECT); [apply handle_disconnect_act; auto|].
+    destruct (type_is (rp r) EVENT).
+    { apply (handle_event_act c Hc s e _ _ _ s); [exact HM|reflexivity|apply Hben; reflexivity]. }
+    destruct (type_is (rp r) ACK); [apply handle_ack_act; reflexivity|].
+    destruct (type_is (rp r) BINARY_EVENT || type_is (rp r) BINARY_ACK).
+    + unfold set_binpkt. apply hp_modify. split; [|constructor]. apply osame_binpkt.
+      apply filter_aset_new; [exact Hbp|]. apply other_self.
+    + apply hp_raise. split; [apply osame_refl|constructor].
+Qed.
+
+(* with scripted actions: the other transports' part of the state is still untouched - rooms
+   included, because a handler's enter_room / leave_room act on its own sid -; handlers are
+   invoked, and callbacks fired, for this transport's sids only; the only thing a scripted action
+   adds is Out effects (emits), which may address anybody *)
+Theorem C12_frame_local_actions_view c s e payload tbl :
+  cfg_ok c -> Inv s -> benign_event_name c s e payload (table_loads tbl) ->
+  osame e s (fst (step c s (EioMessage e payload tbl))) /\
+  Forall (Eok' s e) (snd (step c s (EioMessage e payload tbl))).
+Proof.
+  intros Hc HI Hben. apply (hp_step c s (EioMessage e payload tbl) (fun s' es => osame e s s' /\ Forall (Eok' s e) es)).
+  cbn [step_m]. apply hp_getS_bind. destruct (existsb (str_eqb e) (live s)) eqn:Ex.
+  - apply hp_contain. apply handle_eio_message_act; auto.
+    apply existsb_exists in Ex as (x & Hx & Hex). apply str_eqb_eq in Hex. subst. auto.
+  - apply hp_ret. split; [apply osame_refl|constructor].
+Qed.
+
+Theorem C12_frame_local_actions_lemma c s e payload tbl :
+  cfg_ok c -> Inv s -> benign_event_name c s e payload (table_loads tbl) ->
+  c12_step c s (EioMessage e payload tbl) (snd (step c s (EioMessage e payload tbl))) = true /\
+  others_unchanged e s (fst (step c s (EioMessage e payload tbl))) = true.
+Proof.
+  intros Hc HI Hben. destruct (C12_frame_local_actions_view c s e payload tbl Hc HI Hben) as [Hos HE].
+  split; [|apply osame_others_unchanged; exact Hos].
+  unfold c12_step. destruct (negb (existsb (str_eqb e) (live s))); [reflexivity|].
+  set (obs := snd (step c s (EioMessage e payload tbl))) in *.
+  set (s' := fst (step c s (EioMessage e payload tbl))) in *.
+  rewrite Forall_forall in HE.
+  apply andb_true_iff; split; [apply andb_true_iff; split; [apply andb_true_iff; split; [apply andb_true_iff; split|]|]|].
+  - destruct (has_actions c) eqn:Ha; [reflexivity|]. cbn [orb].
+    (* without actions the sharper statement applies *)
+    destruct (step_message_local c s e payload tbl Ha HI Hben) as [_ HE0]. rewrite Forall_forall in HE0.
+    apply forallb_forall. intros e' He'. unfold out_eios in He'. apply in_flat_map in He' as (x & Hx & Hin).
+    destruct x; cbn in Hin; try contradiction. destruct Hin as [<-|[]]. specialize (HE0 _ Hx). cbn in HE0. subst. apply str_eqb_refl.
+  - apply forallb_forall. intros [h a] Hin. apply calls_of_In in Hin. destruct (HE _ Hin) as (sid & Hmine & Ha). cbn [snd].
+    apply existsb_exists. exists sid. split.
+    + destruct Hmine as [<-|Hm]; [left; reflexivity|]. right. apply in_or_app. left. exact Hm.
+    + unfold mentions_sid. apply existsb_exists. exists (PStr sid). split; [auto|apply pv_eqb_refl].
+  - apply forallb_forall. intros [cb a] Hin. apply cbcalls_of_In in Hin.
+    destruct (HE _ Hin) as (sid & slot & i & Hsid & Hslot & Hent). cbn [fst].
+    apply existsb_exists. exists sid. split; [auto|]. rewrite Hslot. apply existsb_exists. exists (i, cb).
+    split; [auto|]. cbn [snd]. apply N.eqb_refl.
+  - rewrite (osame_others_unchanged _ _ _ Hos). apply orb_true_r.
+  - unfold classify. destruct (aget str_eqb (binpkt s) e) eqn:Hbp; [reflexivity|].
+    destruct (decode_any c (table_loads tbl) payload) as [r|x] eqn:Hd; [reflexivity|].
+    unfold obs. rewrite (C12_undecodable_lemma c s e payload tbl x Hbp Hd). reflexivity.
+Qed.
+
+(* non-vacuity: the offender's event handler enters a room, saves its session and emits to a
+   room in which the bystander sits *)
+Definition z_cfg : cfg :=
+  mkCfg [(x_ns, [(s2l "connect", 1); (s2l "msg", 2)])] []
+        [(1, mkBehav None [AEnter (PStr (s2l "lobby"))] (Returns PNone));
+         (2, mkBehav None [AEnter (PStr (s2l "vip")); ASave (PInt 1);
+                           AEmitRoom (s2l "hello") PNone (PStr (s2l "lobby")) true; ALeave (PStr (s2l "lobby"))]
+                     (Raises RuntimeError))] None false true.
+Definition z_state : srv :=
+  fst (run z_cfg srv_init [EioConnect x_e1 PNone; EioConnect x_e2 PNone;
+                           EioMessage x_e1 (PStr (s2l "0")) []; EioMessage x_e2 (PStr (s2l "0")) []]).
+Lemma z_cfg_ok : cfg_ok z_cfg.
+Proof.
+  intros hid b a Hin Ha. cbn in Hin. destruct Hin as [[= <- <-]|[[= <- <-]|[]]]; cbn in Ha.
+  - destruct Ha as [<-|[]]. split; [discriminate|reflexivity].
+  - destruct Ha as [<-|[<-|[<-|[<-|[]]]]]; cbn; auto; try (split; [discriminate|reflexivity]). discriminate.
+Qed.
+Example z_frame_with_actions :
+  let o := x_frame_event in
+  out_eios (snd (step z_cfg z_state o)) = [x_e2] /\
+  c12_step z_cfg z_state o (snd (step z_cfg z_state o)) = true /\
+  others_unchanged x_e1 z_state (fst (step z_cfg z_state o)) = true.
+Proof.
+  split; [vm_compute; reflexivity|].
+  apply C12_frame_local_actions_lemma; [apply z_cfg_ok| |].
+  - apply run_Inv; [apply z_cfg_ok|repeat constructor|apply Inv_init].
+  - unfold benign_event_name. replace (aget str_eqb (binpkt z_state) x_e1) with (@None rpacket) by (vm_compute; reflexivity).
+    intros r Hr. vm_compute in Hr. injection Hr as <-. intros ev rest Hs. vm_compute in Hs. injection Hs as <- <-. reflexivity.
+Qed.
+(* ==================================================================================== *)
+(** * Towards the executable form: the ghost link between the specification store of
+      c16_fold (keyed by session id) and the model's store (keyed by transport) *)
+
+Definition link (s : srv) (st : store) : Prop :=
+  forall sid n e, eio_from_sid (mg s) sid n = Some e -> In e (live s) -> s_get st sid n = sess_val s e n.
+
+Lemma skey_eqb_eq a b : skey_eqb a b = true <-> a = b.
+Proof.
+  destruct a as [a1 a2], b as [b1 b2]. unfold skey_eqb. cbn [fst snd]. rewrite andb_true_iff, !str_eqb_eq.
+  split; [intros [-> ->]; reflexivity|intros [= -> ->]; auto].
+Qed.
+
+Lemma s_get_aset st sid n v sid' n' :
+  s_get (aset skey_eqb st (sid, n) v) sid' n' = if skey_eqb (sid', n') (sid, n) then v else s_get st sid' n'.
+Proof.
+  unfold s_get. destruct (skey_eqb (sid', n') (sid, n)) eqn:E.
+  - apply skey_eqb_eq in E. injection E as -> ->. rewrite (xaget_aset_eq _ skey_eqb_eq). reflexivity.
+  - rewrite (xaget_aset_neq _ skey_eqb_eq); [reflexivity|]. intros Heq. rewrite Heq in E.
+    assert (skey_eqb (sid, n) (sid, n) = true) by (apply skey_eqb_eq; reflexivity). congruence.
+Qed.
+
+Lemma connected_on_iff s sid n :
+  connected_on s sid n = true <-> exists e, eio_from_sid (mg s) sid n = Some e /\ In e (live s).
+Proof.
+  unfold connected_on. destruct (eio_from_sid (mg s) sid n) as [e|].
+  - split.
+    + intros Ex. exists e. split; [reflexivity|]. apply existsb_exists in Ex as (x & Hx & Hex). apply str_eqb_eq in Hex. subst. auto.
+    + intros (e' & [= <-] & Hl). apply live_existsb. auto.
+  - split; [discriminate|intros (e' & He & _); discriminate].
+Qed.
+
+Lemma not_connected_dead s sid n :
+  connected_on s sid n = false ->
+  match eio_from_sid (mg s) sid n with Some e => ~ In e (live s) | None => True end.
+Proof.
+  intros H. destruct (eio_from_sid (mg s) sid n) as [e|] eqn:He; [|exact I]. intros Hl.
+  assert (connected_on s sid n = true) by (apply connected_on_iff; eauto). congruence.
+Qed.
+
+Lemma api_save_session_dead sid v pns s :
+  (match eio_from_sid (mg s) sid (ns_or_default pns) with Some e => ~ In e (live s) | None => True end) ->
+  api_save_session sid v pns s = (s, [], Err KeyError).
+Proof.
+  intros H. unfold api_save_session, bindM, getS, lift, eio_session.
+  destruct (eio_from_sid (mg s) sid (ns_or_default pns)) as [e|]; [|reflexivity].
+  destruct (existsb (str_eqb e) (live s)) eqn:Ex; [|reflexivity]. exfalso. apply H.
+  apply existsb_exists in Ex as (x & Hx & Hex). apply str_eqb_eq in Hex. subst. auto.
+Qed.
+
+(* one session id per (transport, namespace) *)
+Lemma one_sid_per_slot s sid sid' n e :
+  Inv s -> eio_from_sid (mg s) sid n = Some e -> eio_from_sid (mg s) sid' n = Some e -> sid' = sid.
+Proof.
+  intros [HM _] H1 H2.
+  destruct (eio_from_sid_rmem _ _ _ _ _ _ (mid_mg _ HM) H1) as (rm & Hr & Hm & _).
+  destruct (eio_from_sid_rmem _ _ _ _ _ _ (mid_mg _ HM) H2) as (rm' & Hr' & Hm' & _).
+  assert (rm' = rm) by congruence. subst. destruct (mi_ns _ _ _ (mid_mg _ HM) _ _ Hr) as [_ Hi]. eapply ri_inj; eauto.
+Qed.
+
+Lemma link_put s st sid n e v :
+  Inv s -> eio_from_sid (mg s) sid n = Some e -> link s st -> link (put_sess s e n v) (aset skey_eqb st (sid, n) v).
+Proof.
+  intros HI He HL sid' n' e' He' Hl'. cbn [put_sess with_sessions mg live] in He', Hl'.
+  rewrite s_get_aset. unfold sess_val. rewrite sess_at_put.
+  destruct (skey_eqb (sid', n') (sid, n)) eqn:Ek.
+  - apply skey_eqb_eq in Ek. injection Ek as -> ->. assert (e' = e) by congruence. subst. rewrite !str_eqb_refl. reflexivity.
+  - destruct (str_eqb e' e && str_eqb n' n) eqn:E2; [|apply HL; auto].
+    apply andb_true_iff in E2 as [E2 E3]. apply str_eqb_eq in E2, E3. subst.
+    assert (sid' = sid) by (eapply one_sid_per_slot; eauto). subst.
+    assert (skey_eqb (sid, n) (sid, n) = true) by (apply skey_eqb_eq; reflexivity). congruence.
+Qed.
+
+Lemma link_fill s st e n : link s st -> sess_at s e n = None -> link (put_sess s e n (PDict [])) st.
+Proof.
+  intros HL Hat sid' n' e' He' Hl'. cbn [put_sess with_sessions mg live] in He', Hl'.
+  rewrite (HL _ _ _ He' Hl'). unfold sess_val. rewrite sess_at_put.
+  destruct (str_eqb e' e && str_eqb n' n) eqn:E2; [|reflexivity].
+  apply andb_true_iff in E2 as [E2 E3]. apply str_eqb_eq in E2, E3. subst. rewrite Hat. reflexivity.
+Qed.
+
+(* the three API operations: the head of c16_fold is accepted on the model's own step and the
+   link is re-established with the store the fold continues with *)
+Theorem C16_fold_api_partial c s st o r es :
+  Inv s -> link s st ->
+  match o with ApiGetSession _ _ | ApiSaveSession _ _ _ | ApiSessionSet _ _ _ _ => True | _ => False end ->
+  exists st', c16_fold c s st (o :: r) (snd (step c s o) :: es) = c16_fold c (fst (step c s o)) st' r es /\
+              link (fst (step c s o)) st'.
+Proof.
+  intros HI HL Ho. destruct o as [| | | | | | | | |sid ns|sid v ns|sid ns k v]; try contradiction; cbn [c16_fold].
+  - (* get *)
+    exists st. set (n := ns_or_default ns). destruct (connected_on s sid n) eqn:Hcon.
+    + apply connected_on_iff in Hcon as (e & He & Hl).
+      assert (Hstep : step c s (ApiGetSession sid ns) =
+                      (match sess_at s e n with Some _ => s | None => put_sess s e n (PDict []) end, [Ret (sess_val s e n)])).
+      { unfold step. cbn [step_m]. unfold api, bindM. rewrite (api_get_session_run sid ns s e He Hl). reflexivity. }
+      rewrite Hstep. cbn [fst snd]. rewrite (HL _ _ _ He Hl), pv_eqb_refl. cbn [andb]. split; [reflexivity|].
+      destruct (sess_at s e n) eqn:Hat; [exact HL|apply link_fill; auto].
+    + assert (Hstep : step c s (ApiGetSession sid ns) = (s, [Raised KeyError])).
+      { unfold step. cbn [step_m]. unfold api, bindM. rewrite (api_get_session_dead sid ns s (not_connected_dead _ _ _ Hcon)). reflexivity. }
+      rewrite Hstep. cbn [fst snd]. split; [reflexivity|exact HL].
+  - (* save *)
+    set (n := ns_or_default ns). destruct (connected_on s sid n) eqn:Hcon.
+    + apply connected_on_iff in Hcon as (e & He & Hl). exists (aset skey_eqb st (sid, n) v).
+      assert (Hstep : step c s (ApiSaveSession sid v ns) = (put_sess s e n v, [])).
+      { unfold step. cbn [step_m]. unfold api. rewrite (api_save_session_run sid v ns s e He Hl). reflexivity. }
+      rewrite Hstep. cbn [fst snd]. split; [reflexivity|apply link_put; auto].
+    + exists st.
+      assert (Hstep : step c s (ApiSaveSession sid v ns) = (s, [Raised KeyError])).
+      { unfold step. cbn [step_m]. unfold api. rewrite (api_save_session_dead sid v ns s (not_connected_dead _ _ _ Hcon)). reflexivity. }
+      rewrite Hstep. cbn [fst snd]. split; [reflexivity|exact HL].
+  - (* session() block *)
+    set (n := ns_or_default ns). destruct (connected_on s sid n) eqn:Hcon.
+    + apply connected_on_iff in Hcon as (e & He & Hl). exists (aset skey_eqb st (sid, n) (dict_set (s_get st sid n) k v)).
+      destruct (C16_context_manager_lemma c sid ns k v s e He Hl) as (Hobs & _ & _). fold n in Hobs.
+      rewrite Hobs. cbn [no_raise forallb andb]. split; [reflexivity|].
+      rewrite (HL _ _ _ He Hl).
+      (* the state after the step, as in the proof of C16_context_manager_lemma *)
+      assert (Hstep : fst (step c s (ApiSessionSet sid ns k v)) =
+                      put_sess (match sess_at s e n with Some _ => s | None => put_sess s e n (PDict []) end) e n
+                               (dict_set (sess_val s e n) k v)).
+      { unfold step. cbn [step_m]. unfold api. unfold bindM at 1. rewrite (api_get_session_run sid ns s e He Hl). fold n.
+        set (s0 := match sess_at s e n with Some _ => s | None => put_sess s e n (PDict []) end).
+        assert (He0 : eio_from_sid (mg s0) sid n = Some e) by (unfold s0; destruct (sess_at s e n); exact He).
+        assert (Hl0 : In e (live s0)) by (unfold s0; destruct (sess_at s e n); exact Hl).
+        rewrite (api_save_session_run sid _ ns s0 e He0 Hl0). reflexivity. }
+      rewrite Hstep. destruct (sess_at s e n) eqn:Hat.
+      * apply link_put; auto.
+      * apply link_put.
+        -- destruct HI as [[H1 H2 H3 [H4 H5]] Hp]. split; [|exact Hp]. split; auto. cbn [put_sess with_sessions sessions live]. split.
+           ++ apply (xkeys_ok_aset _ str_eqb_eq). auto.
+           ++ intros x Hx. apply (xkeys_aset _ str_eqb_eq) in Hx as [Hx| ->]; auto.
+        -- exact He.
+        -- apply link_fill; auto.
+    + exists st.
+      assert (Hstep : step c s (ApiSessionSet sid ns k v) = (s, [Raised KeyError])).
+      { unfold step. cbn [step_m]. unfold api. unfold bindM at 1.
+        rewrite (api_get_session_dead sid ns s (not_connected_dead _ _ _ Hcon)). reflexivity. }
+      rewrite Hstep. cbn [fst snd]. split; [reflexivity|exact HL].
+Qed.
